@@ -63,7 +63,7 @@ func c07Kinds(f model.Forest) (kinds []string, positions []string) {
 
 func c07Check(c c07Case) string {
 	cs := ops.NewCase("mkdir", c.Entry)
-	if c.Entry == "md" {
+	if c.Entry == "md" || c.Entry == "mdalias" {
 		cs.Doc = []byte(model.Spell(c.Forest, model.Plain2))
 	} else {
 		cs.Root = &c.Forest[0].Name
@@ -149,17 +149,18 @@ func c07Record(col *collector, c c07Case) {
 	col.sample(func() any { return map[string]any{"forest": c.Forest.String(), "entry": c.Entry, "dryRun": c.DryRun, "massive": c.Massive, "exts": c.Exts} })
 }
 
-var preOpPool = []string{"output", "output-custom", "output-massive", "json", "walk", "walkiter", "walkiter-break", "dryrun", "verify", "verify-massive"}
+var preOpPool = []string{"output", "output-custom", "output-massive", "json", "yaml", "toml", "walk", "walkiter", "walkiter-break", "dryrun", "verify", "verify-massive", "verify-noopt", "mkdir-elsewhere", "mkdir-elsewhere-massive"}
 
 func c07Hostile(entry string) []string {
 	var out []string
+	md := entry == "md" || entry == "mdalias"
 	for _, n := range poolHostilePath {
-		if entry == "md" && !model.NameOKForItem(n) {
+		if md && !model.NameOKForItem(n) {
 			continue
 		}
 		out = append(out, n)
 	}
-	if entry == "root" {
+	if !md {
 		out = append(out, "")
 	}
 	out = append(out, "../../../../../../../../../../escaped", "..", "..", ".", "../outside.txt", "../sib/keep.txt", "../sib", "../../work")
@@ -221,17 +222,17 @@ func TestC07Random(t *testing.T) {
 	col := coll("C07", "random")
 	col.Rule = "rapid: forests mixing benign and hostile names ('..' chains, '.', '/', absolute-looking, NUL, over-long, invalid UTF-8, empty for From-Root) at any positions x {md, root} x {dry-run, real} x {simple, massive} x extension lists x target present/missing; benign control cases must succeed; non-trivial = a must-reject or '..'-containing name below a root"
 	rapid.Check(t, func(rt *rapid.T) {
-		entry := rapid.SampledFrom([]string{"md", "root"}).Draw(rt, "entry")
+		entry := rapid.SampledFrom([]string{"md", "root", "md", "root", "mdalias", "alias"}).Draw(rt, "entry")
 		var names *rapid.Generator[string]
 		if rapid.IntRange(0, 4).Draw(rt, "benign") == 0 {
 			names = sampled(validElemPool())
 		} else {
 			names = rapid.OneOf(sampled(c07Hostile(entry)), sampled(validElemPool()), sampled(validElemPool()))
 		}
-		f := genForest(forestParams{maxNodes: 10, maxDepth: 6, names: names, oneRoot: entry == "root"}).Draw(rt, "forest")
+		f := genForest(forestParams{maxNodes: 10, maxDepth: 6, names: names, oneRoot: entry == "root" || entry == "alias"}).Draw(rt, "forest")
 		c := c07Case{Forest: f, Entry: entry, DryRun: rapid.Bool().Draw(rt, "dry"), Massive: rapid.IntRange(0, 2).Draw(rt, "massive") == 0,
 			Exts: genExts(f.Names()).Draw(rt, "exts"), Missing: rapid.IntRange(0, 4).Draw(rt, "missing") == 0}
-		if entry == "root" && rapid.Bool().Draw(rt, "withPreOps") {
+		if (entry == "root" || entry == "alias") && rapid.Bool().Draw(rt, "withPreOps") {
 			c.PreOps = rapid.SliceOfN(rapid.SampledFrom(preOpPool), 1, 3).Draw(rt, "preOps")
 		}
 		c07Record(col, c)
